@@ -28,14 +28,14 @@ ASSUMPTIONS = [
     "the 'use native slots on Python >= 3.10' warning is ignored; comparison with native slots only concerns the slot tuple",
 ]
 PLAN = {"quick": dict(histories=6000), "thorough": dict(histories=60000)}
-FLOORS = {"quick": {"classes_compared": 10000, "operations_compared": 300000, "pickle_roundtrips": 20000, "inheritance_cases": 1000, "stack_checks": 10000,
+FLOORS = {"quick": {"classes_with_dict_state": 1500, "classes_compared": 10000, "operations_compared": 300000, "pickle_roundtrips": 20000, "inheritance_cases": 1000, "stack_checks": 10000,
                     "repeated_name_histories": 500, "failing_decoration_histories": 500},
           "thorough": {"classes_compared": 100000, "operations_compared": 2000000, "pickle_roundtrips": 150000, "inheritance_cases": 10000,
                        "stack_checks": 90000, "repeated_name_histories": 5000, "failing_decoration_histories": 3000}}
 _N = [0]
 
 
-def gen_class(rng, name, base=None, base_fields=(), slotted_args=None):
+def gen_class(rng, name, base=None, base_fields=(), slotted_args=None, extras=False):
     """Source of one dataclass (optionally decorated with slotted). Returns (source, field list [(name, default_src)])."""
     nf = rng.randrange(0, 6 if base is None else 3)
     frozen = rng.random() < 0.3
@@ -79,6 +79,11 @@ def gen_class(rng, name, base=None, base_fields=(), slotted_args=None):
     if rng.random() < 0.12 and not frozen:
         body.append("    def __getstate__(self):\n        return {f.name: getattr(self, f.name) for f in dataclasses.fields(self)}")
         body.append("    def __setstate__(self, state):\n        for k, v in state.items():\n            object.__setattr__(self, k, v)")
+    use_extras = rng.random() < 0.5 and extras
+    if use_extras:
+        # non-field state kept in the instance __dict__ (the usual idiom on frozen classes); only emitted when the slotted twin has one
+        body.append("    def __post_init__(self):\n        object.__setattr__(self, 'xtra_key', ('derived', len(dataclasses.fields(self))))\n"
+                    "        object.__setattr__(self, 'xtra_list', [1, 2])")
     if not body:
         body.append("    pass")
     lines.extend(body)
@@ -125,6 +130,12 @@ def script(mod, cname, allfields, flags, rng_vals, nested=False):
     rec("deepcopy", lambda: (copy.deepcopy(a) == a, strip(repr(copy.deepcopy(a)))))
     rec("pickle", lambda: (strip(repr(pickle.loads(pickle.dumps(a)))), type(pickle.loads(pickle.dumps(a))) is C))
     rec("pickle-eq", lambda: pickle.loads(pickle.dumps(a, protocol=2)) == a)
+    xt = lambda o: (getattr(o, "xtra_key", "<none>"), getattr(o, "xtra_list", "<none>"))  # noqa: E731  state living in the instance __dict__
+    rec("dict-state", lambda: xt(a))
+    rec("dict-state-copy", lambda: xt(copy.copy(a)))
+    rec("dict-state-deepcopy", lambda: xt(copy.deepcopy(a)))
+    rec("dict-state-pickle", lambda: [xt(pickle.loads(pickle.dumps(a, protocol=pr))) for pr in (2, pickle.HIGHEST_PROTOCOL)])
+    rec("dict-state-replace", lambda: xt(dataclasses.replace(a)))
     if allfields:
         f0 = allfields[0][0]
         rec("setattr", lambda: (setattr(b, f0, "changed"), getattr(b, f0))[1])
@@ -193,9 +204,11 @@ def run_case(sh, i, plan):
             base_unslotted = True  # the slotted module inherits from an UNSLOTTED base of the same shape
         # keep RNG streams identical for both emissions
         state = rng.getstate()
-        src_p, fields, flags = gen_class(rng, name, base, base_fields, None)
+        src_p, fields, flags = gen_class(rng, name, base, base_fields, None, extras=d)
         rng.setstate(state)
-        src_s, _, _ = gen_class(rng, name, (base + "_plain" if base_unslotted else base) if base else None, base_fields, f"dict={d}, weakref={w}")
+        src_s, _, _ = gen_class(rng, name, (base + "_plain" if base_unslotted else base) if base else None, base_fields, f"dict={d}, weakref={w}", extras=d)
+        if "__post_init__" in src_p:
+            sh.count("classes_with_dict_state")
         if flags["frozen"] and base_kind is not None:
             pass
         plain_src += src_p + "\n"
